@@ -496,4 +496,64 @@ def rule_on_subscribe_first(ctx, rule='C07.f'):
 
 
 
-RULES = [('C07.a', rule_a), ('C07.b', rule_b), ('C07.c', rule_c), ('C07.d', rule_d), ('C11.h+C11.b+C09.e+C11.a+C01.h', rule_e), ('C07.e', rule_genpub), ('C12.l', rule_error_conversion), ('C07.f', rule_on_subscribe_first)]
+
+def rule_synthetic_error_data_is_bytes(ctx):
+    """C07.g  The synthetic ERROR frame of the close sequence resolves every pending requester - if it can be turned into
+    an exception.  stop_all_streams(error_code, data) puts `data` into the frame as it is, and the requesters decode it
+    (`frame.data.decode()`): a str there raises AttributeError inside the loop that fails the streams, the loop's
+    containment swallows it, the stream is dropped from the table - and its awaitable is never resolved.  Every call
+    of stop_all_streams (the socket's and StreamControl's) passes bytes for `data`: nothing (the bytes default), a bytes
+    literal, an `.encode()` result, or its own `data` parameter whose default is bytes."""
+    rep = ctx.report
+    n = 0
+    bad = []
+
+    def bytes_like(m, f, e):
+        if e is None:
+            return True
+        if isinstance(e, ast.Constant):
+            return isinstance(e.value, (bytes, bytearray))
+        if isinstance(e, ast.Call) and isinstance(e.func, ast.Attribute) and e.func.attr == 'encode':
+            return True
+        if isinstance(e, ast.Call) and isinstance(e.func, ast.Name) and e.func.id in ('bytes', 'ensure_bytes',
+                                                                                       'str_to_bytes'):
+            return True
+        if isinstance(e, ast.Name):
+            if e.id in f.params():
+                # handed through: the default of that parameter must be bytes
+                a = f.node.args
+                names = [x.arg for x in a.args]
+                d = a.defaults
+                idx = names.index(e.id) - (len(names) - len(d)) if e.id in names else -1
+                return idx >= 0 and isinstance(d[idx], ast.Constant) and isinstance(d[idx].value, bytes)
+            vals = m.assigns.get(e.id)
+            if vals:
+                return bytes_like(m, f, vals[-1])
+        return False
+
+    for f in ctx.repo.all_functions():
+        if not f.module.name.startswith('rsocket.') or f.module.name.startswith('rsocket.cli'):
+            continue
+        for x in walk_local(f.node):
+            if isinstance(x, ast.Call) and isinstance(x.func, ast.Attribute) and x.func.attr == 'stop_all_streams':
+                n += 1
+                data = None
+                for kw in x.keywords:
+                    if kw.arg == 'data':
+                        data = kw.value
+                if data is None and len(x.args) > 1:
+                    data = x.args[1]
+                if not bytes_like(f.module, f, data):
+                    bad.append((f, x, data))
+    for f, x, data in bad:
+        rep.bad('C07.g', '%s / stop_all_streams(data=%s)' % (f.qualname.split(':')[-1], ast.unparse(data)), f,
+                'the data of the synthetic ERROR frame is not bytes: the requesters\' frame.data.decode() raises, the '
+                'failure is swallowed by the close loop and the pending awaitables are never resolved')
+    rep.require('C07.g', 'calls of stop_all_streams', n, 3)
+    if not bad:
+        rep.ok('C07.g', 'stop_all_streams / the synthetic error data is bytes at every call',
+               ctx.repo.func('rsocket.stream_control:StreamControl.stop_all_streams'), '%d call sites' % n)
+
+
+
+RULES = [('C07.a', rule_a), ('C07.b', rule_b), ('C07.c', rule_c), ('C07.d', rule_d), ('C11.h+C11.b+C09.e+C11.a+C01.h', rule_e), ('C07.e', rule_genpub), ('C12.l', rule_error_conversion), ('C07.f', rule_on_subscribe_first), ('C07.g', rule_synthetic_error_data_is_bytes)]
